@@ -20,7 +20,7 @@
 
     Not modelled: read errors other than timeout and close (EIO ...: netget(0) itself calls
     quitmsg() then), malloc failure, several addresses per MX entry. *)
-From Qv Require Import Common.Bytes Gen.GenQremote Gen.GenStarttls Model.NetRead Model.TlsClient.
+From Qv Require Import Common.Bytes Gen.GenNetio Gen.GenQremote Gen.GenStarttls Model.NetRead Model.TlsClient.
 Local Open Scope bool_scope.
 
 Record qconn := mkQ {
@@ -110,3 +110,95 @@ Definition run_q_with (fx_err fx_dup : bool) (k : qcase) : res unit :=
 
 (** the code that exists *)
 Definition run_q (k : qcase) : res unit := run_q_with QR_CONN_ERR_REPORTS QR_CONN_DUP2_REPORTS k.
+
+(* ------------------------------------------------------------------ the code before fixes/C04-loop-long-fatal.diff *)
+(** Only for the witness of the defect (F-C04-8): net_read(0), quitmsg() and net_conn_shutdown(shutdown_clean)
+    as they were while loop_long() read with fatal hard-wired to 1 -- TlsClient's read_loop2, net_read2,
+    nread, quit_loop, quitmsg, shutdown_clean with [RDie] where [long_end] stands now. *)
+Fixpoint read_loop2_old (fuel : nat) (buf : bytes) (e : env) : ritem * rstate :=
+  match fuel with
+  | O => (RStuck, {| inn := []; en := e |})
+  | S f =>
+      match readinput e (LINEINBUF - length buf) with
+      | None => (RReset, {| inn := []; en := e |})
+      | Some (d, e') =>
+          let buf' := buf ++ d in
+          let ro := length buf' in
+          let '(p, valid) := find_eol buf' in
+          let retry := match p with
+                       | Some p' => negb valid && Nat.eqb p' ro && Nat.ltb ro (LINEINBUF - 1)
+                                    && N.eqb (nth (p' - 1) buf' 0%N) CR
+                       | None => false end in
+          let p := if retry then None else p in
+          match p with
+          | None =>
+              if Nat.ltb ro (LINEINBUF - 1) then read_loop2_old f buf' e'
+              else
+                match loop_long (S (length (rest e'))) e' false with
+                | (Some i, e'') => (R2big, {| inn := i; en := e'' |})
+                | (None, e'') => (RDie, {| inn := []; en := e'' |})
+                end
+          | Some p' =>
+              if valid then (RLine (firstn (p' - 2) buf'), {| inn := skipn p' buf'; en := e' |})
+              else if Nat.eqb p' (LINEINBUF - 1) && N.eqb (nth (p' - 1) buf' 0%N) CR then
+                match loop_long (S (length (rest e'))) e' true with
+                | (Some i, e'') => (R2big, {| inn := i; en := e'' |})
+                | (None, e'') => (RDie, {| inn := []; en := e'' |})
+                end
+              else (RInval, {| inn := skipn p' buf'; en := e' |})
+          end
+      end
+  end.
+
+Definition net_read2_old (s : rstate) : ritem * rstate :=
+  match inn s with
+  | [] => read_loop2_old (S (length (rest (en s)))) [] (en s)
+  | _ =>
+      let '(p, valid) := find_eol (inn s) in
+      match p with
+      | None => read_loop2_old (S (length (rest (en s)))) (inn s) (en s)
+      | Some p' =>
+          if valid then (RLine (firstn (p' - 2) (inn s)), {| inn := skipn p' (inn s); en := en s |})
+          else if N.eqb (nth (p' - 1) (inn s) 0%N) CR && Nat.eqb p' (length (inn s))
+          then read_loop2_old (S (length (rest (en s)))) (inn s) (en s)
+          else (RInval, {| inn := skipn p' (inn s); en := en s |})
+      end
+  end.
+
+Definition nread_old (s0 : st) : res ritem :=
+  let s := purge s0 in
+  let '(it, r) := net_read2_old {| inn := s_inn s; en := chan s |} in
+  let s1 := upd_net s (inn r) (en r) in
+  match it with
+  | RDie => Exit (die s1)
+  | RStuck => Stuck s1
+  | _ => Ret it (log (EvR (s_ssl s) it (length (inn r) + length (rest (en r)))) s1)
+  end.
+
+Fixpoint quit_loop_old (fuel : nat) (s : st) : res unit :=
+  match fuel with
+  | O => Stuck s
+  | S f =>
+      rdo (it, s1) <- nread_old s;
+      match it with
+      | RLine l =>
+          if Nat.leb 4 (length l) && N.eqb (nth 3 l 0%N) DASH then quit_loop_old f (set_linein l s1)
+          else Ret tt (set_linein l s1)
+      | _ => Ret tt s1
+      end
+  end.
+
+Definition quitmsg_old (s : st) : res unit :=
+  let s0 := nwrite ST_CMD_QUIT s in
+  rdo (_, s1) <- quit_loop_old (S (avail s0)) s0;
+  let s2 := set_conn false false s1 in
+  Ret tt (if ST_QUITMSG_RESETS_ROUTE then set_route false false s2 else s2).
+
+Definition shutdown_clean_old {A} (s : st) : res A :=
+  if s_sock s then
+    match quitmsg_old s with
+    | Ret _ s1 => Exit s1
+    | Exit s1 => Exit s1
+    | Stuck s1 => Stuck s1
+    end
+  else Exit s.
